@@ -1,6 +1,6 @@
-(* C15 — Concurrent single-packet operations are linearizable. Theorems only; proofs in Proofs/LinearizeP.v *)
+(* C15 — Concurrent single-packet operations are linearizable. Theorems only; proofs in Proofs/LinearizeP.v, Proofs/ComposeP.v *)
 From Coq Require Import List NArith Bool Arith Strings.Byte.
-From Sftp Require Import Base.GoSem Lin.Linearize Proofs.LinearizeP.
+From Sftp Require Import Base.GoSem Lin.Linearize Lin.Compose Proofs.LinearizeP Proofs.ComposeP.
 Import ListNotations.
 
 (* the decision procedure applied to every observed history is sound: a positive answer exhibits an order of the
@@ -29,11 +29,37 @@ Theorem C15_sizes_constant : forall order f,
 Proof. exact legal_seq_sizes_constant. Qed.
 Print Assumptions C15_sizes_constant.
 
-(* PARTIAL: the composition theorem of DESIGN.md ("ordering operations by their store step is a legal sequential history,
-   for every schedule of client multiplexer, packet manager and workers") is not proved; what is proved is the soundness of
-   the checker that decides each observed history, plus C02/C03/C18's invariants that the argument would compose. *)
+(* ===== composition (Lin/Compose.v) =====
+   The path of a single-packet operation through caller, client multiplexer, wire, server receive loop, packet manager,
+   worker, backing store and back is abstracted to three atomic steps per operation: Call (the caller starts it), Store
+   (the worker applies it to the backing store, whose own ReadAt/WriteAt/Stat are atomic - the property's proviso - and the
+   result is fixed), Ret (the caller gets exactly that result). For every initial content, every set of operations and
+   EVERY interleaving of these steps: once all operations have returned, the history the callers observed is
+   linearizable, and the order of the Store steps is a linearization. *)
+Theorem C15_store_order_linearizes : forall f0 tr s,
+  srun (sys0 f0) tr = Some s -> all_returned s = true ->
+  valid_witness f0 (history s) (store_order s) = true.
+Proof. exact store_order_linearizes. Qed.
+Print Assumptions C15_store_order_linearizes.
+
+Theorem C15_composed_history_linearizable : forall f0 tr s,
+  srun (sys0 f0) tr = Some s -> all_returned s = true -> linearizable f0 (history s).
+Proof. exact composed_history_linearizable. Qed.
+Print Assumptions C15_composed_history_linearizable.
+
+(* MODELLED, NOT PROVED ABOUT THE CODE: that the implementation IS such a system - every operation has exactly one Store
+   step, between its call and its return, and gets its own result back. That is what the theorems of C03 (a caller takes the
+   reply carrying its own id), C02 (one response per request, with its id), C14 and C18 (responses unchanged by the
+   allocator) say about the layers in between; their conjunction with this theorem is an argument in prose (DESIGN.md 3,
+   C15), not a single Coq term. Every observed history is decided independently by the verified checker (family c15). *)
 Example C15_nonvacuous :
   let f0 := [x00; x00]%byte in
   lin_check f0 [mkOp 1 1 4 (OWrite 0 [x41]%byte); mkOp 2 2 3 (ORead 0 1 [x41]%byte)] = true /\
   lin_check f0 [mkOp 1 1 2 (OWrite 0 [x41]%byte); mkOp 2 3 4 (ORead 0 1 [x00]%byte)] = false.
 Proof. vm_compute. split; reflexivity. Qed.
+
+Example C15_compose_nonvacuous :
+  exists s, srun (sys0 [x00; x00]%byte)
+              [LCall 1 (RWrite 0 [x41]%byte); LCall 2 (RRead 0 1); LCall 3 RSize; LStore 2; LStore 1; LRet 1; LStore 3; LRet 3; LRet 2] = Some s /\
+            all_returned s = true /\ length (history s) = 3 /\ map o_id (store_order s) = [2; 1; 3] /\ map o_id (history s) = [1; 3; 2].
+Proof. eexists. split; [vm_compute; reflexivity|]. vm_compute. repeat split; reflexivity. Qed.
